@@ -124,7 +124,13 @@ impl<V: Debug + Clone> TrieNode<V> {
         let before = self.count_values();
 
         let insert_result = self.insert_recursive(&key, &key, value);
-        assert_ne!(insert_result, InsertResult::Failed);
+        // A key that cannot be stored (empty label, trailing `/` that does
+        // not close a `/regex/` segment, regex that does not compile) is
+        // reported to the caller; the recursion leaves the trie untouched on
+        // that path.
+        if insert_result == InsertResult::Failed {
+            return InsertResult::Failed;
+        }
 
         // Post: the value count grows by exactly one on a fresh insert
         // and is unchanged when the key already existed. `Failed` is
@@ -154,7 +160,10 @@ impl<V: Debug + Clone> TrieNode<V> {
 
     pub fn insert_recursive(&mut self, partial_key: &[u8], key: &Key, value: V) -> InsertResult {
         //println!("insert_rec: key == {}", std::str::from_utf8(partial_key).unwrap());
-        assert_ne!(partial_key, &b""[..]);
+        // an empty label (`.com`, `./regex/.com`) cannot be stored
+        if partial_key.is_empty() {
+            return InsertResult::Failed;
+        }
         // `partial_key` is always a suffix of the full `key` being
         // inserted — the recursion only ever shrinks the head, never
         // rewrites the tail.
